@@ -49,6 +49,9 @@ def main():
         print(json.dumps(data, indent=1)[:4000])
         sys.exit(0)
 
+    import glob
+    for old in glob.glob(os.path.join(VERIF, "replay", "%s-%s-seed%d-*.json" % (prop, tier, seed))):
+        os.remove(old)
     import torch
     torch.manual_seed(seed)
     torch.set_num_threads(2)
